@@ -1,6 +1,7 @@
 # C03 — programmatically built trees behave exactly like the equivalent Markdown.
 from lib import *
 from hist import *
+from c05 import merged_items
 
 RULE = ("random trees x random Add orders that build them (any interleaving respecting parent-before-child, repeated Adds of "
         "existing names and From-Root calls injected at any point) x options shared by both families (branch strings, JSON/YAML/TOML, walk with a "
@@ -62,16 +63,7 @@ def run(ck, rng):
         items = gen_forest(rng, max_roots=1, max_nodes=16 if rng.random() < 0.85 else 40, dup_prob=0.0,
                            pool=rng.choice(["mixed", "ascii", "hostile_fmt", "fs"]))
         # Add merges equal sibling names: make sibling names distinct so that the item list is the tree
-        seen = set()
-        cur = []
-        uniq = []
-        for d, n in items:
-            cur = cur[:d - 1] + [n]
-            if tuple(cur) in seen:
-                continue
-            seen.add(tuple(cur))
-            uniq.append((d, n))
-        items = uniq
+        items = merged_items(items)[0]
         build = random_build(rng, items)
         doc = spell(items, gen_spelling(rng, items))
         # + branch strings whose continuation strings share characters with the connectors
